@@ -402,8 +402,12 @@ func (r *resourceManager) openConnection(dir network.Direction, usefd bool, endp
 		// Failed to open connection, let's see if this was allowlisted and try again
 		allowed := r.allowlist.Allowed(endpoint)
 		if allowed {
+			// The slot taken in the connLimiter above is handed over to the
+			// allowlisted scope: Done on the failed scope must not release it.
+			conn.ip = netip.Addr{}
 			conn.Done()
 			conn = newAllowListedConnectionScope(dir, usefd, r.limits.GetConnLimits(), r, endpoint)
+			conn.ip = ip
 			err = conn.AddConn(dir, usefd)
 		}
 	}
